@@ -270,6 +270,42 @@ def run(ctx) -> None:
         sdef = [s for s in stmts(main) if isinstance(s, ast.Assign) and is_name(s.targets[0], ename)]
         r3.check(len(sdef) == 1 and norm(sdef[0].value) == "len(K_list)", f"`{ename}` is len(K_list)", runf,
                  sdef[0] if sdef else main, f"`{ename}` is not the current length of the K-point list")
+    # (b2) initial value of the "already written" counter: everything loaded on restart, nothing on a fresh start
+    if start is not None:
+        sname = norm(start)
+        inits = [s for s in stmts(runf.node) if isinstance(s, ast.Assign) and is_name(s.targets[0], sname) and not in_body(main.body, s)]
+        rif = [s for s in stmts(runf.node) if isinstance(s, ast.If) and norm(s.test) == "restart" and any(in_body(s.body, x) or in_body(s.orelse, x) for x in inits)]
+        if len(inits) != 2 or len(rif) != 1:
+            raise AnalysisError(f"run(): expected `{sname}` to be initialised once in each arm of `if restart:`")
+        for x in inits:
+            r3.instance(f"{runf.short}: {norm1(x)}")
+            if in_body(rif[0].body, x):
+                r3.check(norm(x.value).replace(" ", "") == "len(K_list)", f"restart: all reloaded K-points count as already written", runf, x,
+                         f"on restart `{sname}` starts at `{norm1(x.value)}` instead of len(K_list): the K-points read from the K-list file "
+                         f"are appended to it again, so a second restart loads duplicates (weights no longer line up with the list)")
+            else:
+                r3.check(norm(x.value) == "0", "fresh start: nothing written yet", runf, x,
+                         f"on a fresh start `{sname}` starts at `{norm1(x.value)}` instead of 0: the first K-points are never written")
+    # (b3) all kinds of restart files are written under equivalent conditions
+    impl = [s for s in stmts(runf.node) if isinstance(s, ast.If) and "dump_results" in norm(s.test)
+            and any(isinstance(b, ast.Assign) and norm(b) == "allow_restart = True" for b in s.body)]
+    r3.instance(f"{runf.short}: dump_results ⇒ allow_restart")
+    okimpl = len(impl) == 1 and norm(impl[0].test) == "dump_results"
+    r3.check(okimpl, "dump_results always implies allow_restart", runf, impl[0] if impl else runf.node,
+             f"`allow_restart` is switched on only under `{norm1(impl[0].test) if impl else '?'}`; with dump_results=True outside that "
+             f"condition the per-K results and weight files are written but the K-list file is not, and a restart fails")
+    if impl:
+        guards = []
+        for c in calls(runf.node, "write_factors", suffix=False) + dumps:
+            g = [norm(i.test) for i in enclosing_all(pm, c, ast.If) if "restart" in norm(i.test) and "allow_restart" in norm(i.test) or norm(i.test) in ("dump_results",)]
+            guards.append((c, g))
+            okg = any(t in ("allow_restart", "allow_restart or dump_results", "dump_results or allow_restart") for t in g)
+            r3.check(okg, f"`{norm1(c, 50)}` is written whenever restart files are kept", runf, enclosing(pm, c, ast.stmt),
+                     f"`{norm1(c, 60)}` is guarded by {g}: one kind of restart file is written under a different condition than the others")
+        first = min((cfg.node(enclosing(pm, c, ast.stmt)) for c, _ in guards), default=None)
+        r3.check(first is not None and all(cfg.dominates(cfg.node(impl[0]), cfg.node(enclosing(pm, c, ast.stmt))) for c, _ in guards),
+                 "the implication is established before any restart file is written", runf, impl[0],
+                 "a restart file can be written before `dump_results ⇒ allow_restart` is established")
     # (c) weights written and re-applied in K-list order
     wcalls = calls(runf.node, "write_factors", suffix=False)
     for w in wcalls:
@@ -385,6 +421,10 @@ SELFTEST = [
     V("weights filed under the local iteration number", RG,
       "write_factors(file_Klist_path=file_Klist_path, factors=factors, iter=i_iter_global)",
       "write_factors(file_Klist_path=file_Klist_path, factors=factors, iter=i_iter)", "fire", "R11.3"),
+    V("restart re-appends the whole K-list (seeded C11-m1)", RG, "        nk_prev = len(K_list)\n        start_iter, factors = read_factors",
+      "        nk_prev = 0\n        start_iter, factors = read_factors", "fire", "R11.3"),
+    V("allow_restart only when refining (seeded C11-m2)", RG, "    if dump_results:\n        allow_restart = True\n",
+      "    if dump_results and adpt_num_iter > 0:\n        allow_restart = True\n", "fire", "R11.3"),
     V("old points may be merged away", KP,
       "                    if i < n - new_points and j < n - new_points:\n                        continue\n",
       "", "fire", "R11.4"),
